@@ -264,3 +264,75 @@ func VH_C17_unauthenticated_after_authenticated() {
 	verifAssert("C17.recycled.nothing-under-the-empty-key", verifCounterValue(m.tunnelTimeMetrics.tunnelTimePerKey, "ns", "") == 0)
 	verifReach("C17.recycled.done", true)
 }
+
+// the same histories through the connection-metrics API only (no access to how open tunnels are
+// represented): clients open authenticated TCP connections and UDP associations in turn, close
+// the latest one, time passes, scrapes happen; three (client, key) pairs: two clients of one key,
+// one client with two keys
+func verifC17HistoryAPI(steps int) {
+	verifInstallClock(1 << 41)
+	m, err := NewServiceMetrics(nil)
+	verifAssert("C17.api.built", err == nil)
+	type pair struct {
+		ip  net.IP
+		key string
+	}
+	pairs := []pair{
+		{net.IPv4(203, 0, 113, 5), "k1"},
+		{net.IPv4(203, 0, 113, 6), "k1"}, // another client of the same key
+		{net.IPv4(203, 0, 113, 5), "k2"}, // same client, another key
+	}
+	closers := make([][]func(), len(pairs))
+	due := map[string]int64{"k1": 0, "k2": 0}
+	opened := 0
+	account := func(dt int64) {
+		for k := range pairs {
+			if len(closers[k]) > 0 {
+				due[pairs[k].key] += dt
+			}
+		}
+	}
+	for i := 0; i < steps; i++ {
+		account(verifAdvance())
+		op := verifChoice("op", 7)
+		switch {
+		case op < 3:
+			p := pairs[op]
+			opened++
+			if opened%2 == 1 {
+				u := m.AddUDPNatEntry(&net.UDPAddr{IP: p.ip, Port: 40000 + opened}, p.key)
+				closers[op] = append(closers[op], func() { u.RemoveNatEntry() })
+			} else {
+				conn := &verifConn{remote: &net.TCPAddr{IP: p.ip, Port: 50000 + opened}, local: &net.TCPAddr{IP: net.IPv4(192, 0, 2, 1), Port: 443}}
+				t := m.AddOpenTCPConnection(conn)
+				t.AddAuthenticated(p.key)
+				closers[op] = append(closers[op], func() { t.AddClosed("OK", metrics.ProxyMetrics{}, time.Second) })
+			}
+		case op < 6:
+			k := op - 3
+			if n := len(closers[k]); n > 0 {
+				closers[k][n-1]()
+				closers[k] = closers[k][:n-1]
+			}
+		default:
+			m.Collect(make(chan prometheus_Metric, 256))
+			tt := m.tunnelTimeMetrics
+			verifAssert("C17.api.scrape.k1", verifEqNanos(verifCounterValue(tt.tunnelTimePerKey, "ns", "k1"), due["k1"]))
+			verifAssert("C17.api.scrape.k2", verifEqNanos(verifCounterValue(tt.tunnelTimePerKey, "ns", "k2"), due["k2"]))
+			verifAssert("C17.api.scrape.location-total", verifEqNanos(verifCounterValue(tt.tunnelTimePerLocation, "ns", "", "", ""), due["k1"]+due["k2"]))
+			verifReach("C17.api.scrape.nonzero", due["k2"] > 0)
+		}
+	}
+	account(verifAdvance())
+	m.Collect(make(chan prometheus_Metric, 256))
+	tt := m.tunnelTimeMetrics
+	verifAssert("C17.api.final.k1", verifEqNanos(verifCounterValue(tt.tunnelTimePerKey, "ns", "k1"), due["k1"]))
+	verifAssert("C17.api.final.k2", verifEqNanos(verifCounterValue(tt.tunnelTimePerKey, "ns", "k2"), due["k2"]))
+	verifAssert("C17.api.final.location-total", verifEqNanos(verifCounterValue(tt.tunnelTimePerLocation, "ns", "", "", ""), due["k1"]+due["k2"]))
+	verifReach("C17.api.final.overlap", len(closers[0]) >= 2)
+	verifReach("C17.api.final.two-keys-of-one-client", len(closers[0]) >= 1 && len(closers[2]) >= 1)
+}
+
+func VH_C17_history_api() { verifC17HistoryAPI(4) }
+
+func VH_C17_history_api_T() { verifC17HistoryAPI(6) }
